@@ -128,7 +128,9 @@ def oracle_c14(sc, res):
             status = st
         if k == "act-stop" and r[4] == root:
             inflight_worker = r[W]
-        elif k in ("recv", "op-call") and inflight_worker is not None and (k == "op-call" or r[4] == root):
+        elif inflight_worker is not None and ((k == "recv" and r[4] == root) or (k == "op-call" and r[W] == inflight_worker)):
+            # the macrostep whose own action called stop() ends when its worker takes the next event (or returns to its
+            # caller); calls made meanwhile by OTHER threads do not end it
             inflight_worker = None
         if stop_returned is not None and r[SEQ] > stop_returned and k in ("act", "trans", "recv") and r[4] == root:
             if inflight_worker is not None and r[W] == inflight_worker and k != "recv":
